@@ -643,7 +643,7 @@ class PKey:
             else:
                 raise SSHException(
                     "unknown cipher `{}` used in private key file".format(
-                        cipher.decode("utf-8")
+                        cipher.decode("utf-8", "replace")
                     )
                 )
             # Encrypted private key.
